@@ -1,5 +1,5 @@
 """C16 — saving round-trips: same members, same extraction, edits carried over."""
-import io, os, random, shutil, tempfile, warnings, zipfile
+import io, json, os, random, shutil, tempfile, warnings, zipfile
 from lxml import etree
 import pk, src
 from common import jhash, first_diff
@@ -55,6 +55,10 @@ def one(ctx, data, meta, html, tmpdir, rng, edits=True, reads=None):
     m = ctx.drv.ask({**pk.model_case(data, html, True)[0], 'op': 'save'})
     if m.get('ok') != n1:
         ctx.diff('member names written by save', case, n1, m); good = False
+    # the hypotheses of C16_reextract (same relationships listed by the saved archive, no content part under a numbering / relationships name,
+    # goodTree of every content source tree), evaluated by the model on this package
+    hy = ctx.drv.ask({**pk.model_case(data, html, True)[0], 'op': 'savehyp'})
+    ctx.count('hypotheses of C16_reextract hold' if all(hy.get(k) is True for k in ('files_same', 'saveSane', 'goodTree')) else 'hypotheses of C16_reextract: ' + json.dumps(hy, sort_keys=True))
     # same extraction
     i0, m0 = pk.both(ctx.drv, data, html, True, want=['plain', 'runs', 'text', 'comments', 'core', 'images'])
     i1, m1 = pk.both(ctx.drv, b1, html, True, want=['plain', 'runs', 'text', 'comments', 'core', 'images'])
